@@ -83,6 +83,7 @@ def run_c09(tier, seed):
     parse_budget = 2500 if tier == "quick" else 20000
     parse_pick = set(rng.sample(range(len(trees)), min(parse_budget, len(trees))))
     prev_obj = None
+    shared = {}
     t_start = time.time()
     for ti, o in enumerate(trees):
         if len(chk.violations) > 2000 and (time.time() - t_start) > 600:
@@ -116,10 +117,21 @@ def run_c09(tier, seed):
                     getattr(obj, attr)[:] = getattr(fresh, attr)
                 variants.append((how, obj))
         prev_obj = variants[0][1]
+        if ti % 3 == 0:
+            # ONE long-lived verifier object per check set asked about tree after tree (renewed every 150 trees so that it starts
+            # from different ones): the verdict is a function of the tree, not of what the verifier has seen before
+            if ti % 450 == 0:
+                shared.clear()
+            variants.append(("objects/verifier-reused", build.mk_fcp(tree)))
         for cs in CSETS:
             exp = "Ok" if o[cs] == 1 else "Err"
             for how, fcp in variants:
-                got = build.verdict(fcp, cs)
+                if how == "objects/verifier-reused":
+                    if cs not in shared:
+                        shared[cs] = build.verifier_for(cs)
+                    got = build.verdict(fcp, cs, verifier=shared[cs])
+                else:
+                    got = build.verdict(fcp, cs)
                 chk.count(1, traces=1)
                 if got != exp:
                     dev = ("accepted-ill-formed" if got == "Ok" else "rejected-well-formed" if got == "Err" else "neither-ok-nor-err")
